@@ -133,6 +133,13 @@ class CallMixin:
             return self._call_ext(fn.name, args, kwargs, node)
         if isinstance(fn, Term) and fn.op == "bound":
             return self._call_bound(fn.args[0], fn.args[1], args, kwargs, node)
+        if isinstance(fn, Term) and fn.op == "attrgetter" and len(args) == 1 and not kwargs:
+            v = args[0]
+            for part in str(fn.args[0]).split("."):        # operator.attrgetter("a.b")(x) is x.a.b
+                v = self.getattr(v, part, node)
+            return v
+        if isinstance(fn, Term) and fn.op == "itemgetter" and len(args) == 1 and not kwargs:
+            return self.getitem(args[0], fn.args[0], node)
         if isinstance(fn, Term) and fn.op == "attr":
             recv, attr = fn.args[0], fn.args[1]
             if attr == "__class__":
@@ -361,6 +368,10 @@ class CallMixin:
     # ------------------------------------------------------------------ externals
     def _call_ext(self, name: str, args: List[Any], kwargs: Dict[str, V], node: Any) -> V:
         short = name.split(".", 1)[1] if name.startswith("builtins.") else name
+        if name.startswith("operator.") and not kwargs and all(isinstance(a, V) for a in args):
+            r0 = self._operator_call(name.split(".", 1)[1], list(args), node)
+            if r0 is not None:
+                return r0
         h = getattr(self, "x_" + short.replace(".", "_"), None)
         c = exc_class_of(name)
         if c is not None and isinstance(c, type) and issubclass(c, BaseException):
@@ -482,6 +493,13 @@ class CallMixin:
             return Ext("builtins." + n)
         if isinstance(x, (SchemaV, Inst, PropsV)) and x.cls is not None:
             return ClassV(x.cls)
+        if isinstance(x, Sym) and getattr(x, "exact", False) and self.kind_of(x) is not None:
+            # the symbol stands for a value of exactly this class
+            k = str(self.kind_of(x))
+            full = next((n for n, kk in KIND_NAMES.items() if kk == k), None)
+            return Ext(full if full is not None else "exactkind." + k)
+        if isinstance(x, (ListV, DictV, SetV, TupleV, StrV)):
+            return Ext("builtins." + {"ListV": "list", "DictV": "dict", "SetV": "set", "TupleV": "tuple", "StrV": "str"}[type(x).__name__])
         return Term("attr", (x, "__class__"), kind="type", node=node)
 
     def x_len(self, args: List[V], kwargs: Dict[str, V], node: Any) -> Optional[V]:
@@ -727,6 +745,40 @@ class CallMixin:
         x = self._unwrap1(args[0]) if args else None
         if isinstance(x, (ListV, TupleV)) and x.concrete():
             return self._concat(list(x.items), node)
+        return None
+
+    # operator module: function spellings of the operators
+    _OPERATOR_CMP = {"lt": "<", "le": "<=", "gt": ">", "ge": ">=", "eq": "==", "ne": "!=", "is_": "is", "is_not": "is not",
+                     "contains": "in"}
+    _OPERATOR_BIN = {"add": ast.Add(), "sub": ast.Sub(), "mul": ast.Mult(), "truediv": ast.Div(), "floordiv": ast.FloorDiv(),
+                     "mod": ast.Mod(), "pow": ast.Pow(), "lshift": ast.LShift(), "rshift": ast.RShift(), "and_": ast.BitAnd(),
+                     "or_": ast.BitOr(), "xor": ast.BitXor()}
+
+    def x_operator_attrgetter(self, args: List[V], kwargs: Dict[str, V], node: Any) -> Optional[V]:
+        if len(args) == 1 and isinstance(args[0], Const) and isinstance(args[0].value, str):
+            return Term("attrgetter", (args[0].value,), kind="function", node=node)
+        return None
+
+    def x_operator_itemgetter(self, args: List[V], kwargs: Dict[str, V], node: Any) -> Optional[V]:
+        if len(args) == 1:
+            return Term("itemgetter", (args[0],), kind="function", node=node)
+        return None
+
+    def _operator_call(self, name: str, args: List[V], node: Any) -> Optional[V]:
+        if name in self._OPERATOR_CMP and len(args) == 2:
+            if name == "contains":
+                return self.compare("in", args[1], args[0], node)
+            return self.compare(self._OPERATOR_CMP[name], args[0], args[1], node)
+        if name in self._OPERATOR_BIN and len(args) == 2:
+            return self.binop(self._OPERATOR_BIN[name], args[0], args[1], node)
+        if name == "not_" and len(args) == 1:
+            t = self.truth(args[0])
+            return Const(not t) if t is not None else Term("not", (args[0],), kind="bool", node=node)
+        if name == "truth" and len(args) == 1:
+            t = self.truth(args[0])
+            return Const(t) if t is not None else args[0]
+        if name == "getitem" and len(args) == 2:
+            return self.getitem(args[0], args[1], node)
         return None
 
     def x_reversed(self, args: List[V], kwargs: Dict[str, V], node: Any) -> Optional[V]:
